@@ -194,6 +194,9 @@ class DocBuilder:
                     fam = g.choice([["Person", "Organization", "SoftwareAgent"], ["Plan", "Collection", "EmptyCollection", "Bundle"],
                                     ["Revision", "Quotation", "PrimarySource"]])
                     v = PROV[g.choice(fam)]
+                    if g.chance(0.25):
+                        # the same URI as a value of another kind (xsd:anyURI / plain string): must stay that kind
+                        v = Identifier(v.uri) if g.chance(0.7) else g.choice([v.uri, "prov:" + v.localpart])
                     if g.chance(0.4):
                         # a second subtype of the same base class on the same record (only one can name the XML element)
                         out.append((name, PROV[g.choice(fam)]))
